@@ -106,13 +106,17 @@ impl Circle {
 
 impl OffsetOutline for Circle {
     fn offset(&self, offset: i32) -> Self {
-        let diameter = if offset >= 0 {
-            self.diameter.saturating_add(2 * offset as u32)
+        if offset >= 0 {
+            // The top left corner is moved directly: a zero sized circle has no center pixel.
+            Self::new(
+                self.top_left - Point::new_equal(offset),
+                self.diameter.saturating_add(2 * offset as u32),
+            )
         } else {
-            self.diameter.saturating_sub(2 * (-offset) as u32)
-        };
+            let diameter = self.diameter.saturating_sub(2 * (-offset) as u32);
 
-        Self::with_center(self.center(), diameter)
+            Self::with_center(self.center(), diameter)
+        }
     }
 }
 
